@@ -237,6 +237,15 @@ func (e *Exec) rawSet(slot int) iset {
 
 var manySizes = [][]int{{1}, {2}, {3}, {0, 1}, {5}, {7, 0, 3}, {64}, {4096}, {65536}, {1000, 1, 0, 17}}
 
+// reinitSteps: how far a recycled iterator is driven on its first bitmap before it is re-initialised: a few steps, or to
+// the very end (its internal positions then point past every bucket / chunk of the first bitmap).
+func (e *Exec) reinitSteps() int {
+	if e.rng.Intn(2) == 0 {
+		return 1 + e.rng.Intn(4)
+	}
+	return 1 << 22
+}
+
 func (e *Exec) doIter(c *Call, ev *Event) bool {
 	u := e.u
 	cellOf := func(v uint64) int { return u.atom(u.landmark(v).A).Cell }
@@ -245,7 +254,19 @@ func (e *Exec) doIter(c *Call, ev *Event) bool {
 		st := &iterState{kind: c.Rcp, slot: c.X, set: e.rawSet(c.X)}
 		switch c.Rcp {
 		case "fwd":
-			if e.mode64 {
+			if e.mode64 && e.rng.Intn(3) == 0 {
+				// a caller-owned iterator value, (re)initialised: first on another bitmap, partly or fully consumed, then on this one
+				it := new(roaring64.IntIterator64)
+				if e.rng.Intn(3) != 0 {
+					it.Initialize(e.bm64(1 + e.rng.Intn(NSLOT)))
+					for k, n := 0, e.reinitSteps(); k < n && it.HasNext(); k++ {
+						it.Next()
+					}
+				}
+				it.Initialize(e.bm64(c.X))
+				p := p64{it}
+				st.it, st.pk = p, p
+			} else if e.mode64 {
 				p := p64{e.bm64(c.X).Iterator()}
 				st.it, st.pk = p, p
 			} else if e.rng.Intn(3) == 0 {
@@ -253,7 +274,7 @@ func (e *Exec) doIter(c *Call, ev *Event) bool {
 				it := new(roaring.IntIterator)
 				if e.rng.Intn(2) == 0 {
 					it.Initialize(e.bm(1 + e.rng.Intn(NSLOT)))
-					for k := 0; k < 3 && it.HasNext(); k++ {
+					for k, n := 0, e.reinitSteps(); k < n && it.HasNext(); k++ {
 						it.Next()
 					}
 				}
@@ -265,13 +286,23 @@ func (e *Exec) doIter(c *Call, ev *Event) bool {
 				st.it, st.pk = p, p
 			}
 		case "rev":
-			if e.mode64 {
+			if e.mode64 && e.rng.Intn(3) == 0 {
+				it := new(roaring64.IntReverseIterator64)
+				if e.rng.Intn(3) != 0 {
+					it.Initialize(e.bm64(1 + e.rng.Intn(NSLOT)))
+					for k, n := 0, e.reinitSteps(); k < n && it.HasNext(); k++ {
+						it.Next()
+					}
+				}
+				it.Initialize(e.bm64(c.X))
+				st.it = r64{it}
+			} else if e.mode64 {
 				st.it = r64{e.bm64(c.X).ReverseIterator()}
 			} else if e.rng.Intn(3) == 0 {
 				it := new(roaring.IntReverseIterator)
 				if e.rng.Intn(2) == 0 {
 					it.Initialize(e.bm(1 + e.rng.Intn(NSLOT)))
-					for k := 0; k < 3 && it.HasNext(); k++ {
+					for k, n := 0, e.reinitSteps(); k < n && it.HasNext(); k++ {
 						it.Next()
 					}
 				}
@@ -282,13 +313,31 @@ func (e *Exec) doIter(c *Call, ev *Event) bool {
 			}
 		case "many":
 			m := &manyAdapter{sizes: manySizes[c.J%len(manySizes)], zeroOK: true}
-			if e.mode64 {
+			if e.mode64 && e.rng.Intn(3) == 0 {
+				it := new(roaring64.ManyIntIterator64)
+				if e.rng.Intn(3) != 0 {
+					it.Initialize(e.bm64(1 + e.rng.Intn(NSLOT)))
+					buf := make([]uint64, 1+e.rng.Intn(64))
+					for k, n := 0, e.reinitSteps(); k < n; k++ {
+						if it.NextMany(buf) == 0 {
+							break
+						}
+					}
+				}
+				it.Initialize(e.bm64(c.X))
+				m.m64 = it
+			} else if e.mode64 {
 				m.m64 = e.bm64(c.X).ManyIterator()
 			} else if e.rng.Intn(3) == 0 {
 				it := new(roaring.ManyIntIterator)
 				if e.rng.Intn(2) == 0 {
 					it.Initialize(e.bm(1 + e.rng.Intn(NSLOT)))
-					it.NextMany(make([]uint32, 3))
+					buf := make([]uint32, 1+e.rng.Intn(64))
+					for k, n := 0, e.reinitSteps(); k < n; k++ {
+						if it.NextMany(buf) == 0 {
+							break
+						}
+					}
 				}
 				it.Initialize(e.bm(c.X))
 				m.m32 = it
